@@ -341,7 +341,7 @@ impl Check for Enforcement {
             .boxed()
     }
     fn rule(&self) -> String {
-        "external-equivalence task that is valid by construction, with exactly one precondition broken on purpose (or none: control), on the left or right program, with and without --bypass-tightness; oracle: a broken task (non-tight; private recursion through negation, through a mixed-sign cycle or through a positive cycle; private choice head; input in a head; input/output overlap; bad assumptions; placeholder at two sorts) yields an error and no problems, except a merely non-tight program under --bypass-tightness, which yields problems; the control yields problems; non-trivial = a precondition was broken; distinct by task + breakage; labels = breakage kind and the error variant reported".into()
+        "external-equivalence task that is valid by construction, with exactly one precondition broken on purpose (or none: control), on the left or right program, with and without --bypass-tightness; oracle: a broken task (non-tight; private recursion through negation, through a mixed-sign cycle or through a positive cycle; private choice head; input in a head; input/output overlap; bad assumptions; placeholder at two sorts) yields an error and no problems, except a merely non-tight program under --bypass-tightness, which yields problems; the control yields problems; non-trivial = a precondition was broken; distinct by task + breakage; labels = breakage kind and the error variant reported; one case in 150 also goes through the binary with --no-proof-search, with and without --save-problems: refused (non-zero exit, message, nothing written) exactly when the library refuses".into()
     }
     fn run(&self, case: &EnfCase) -> Outcome {
         let mut c = Chooser::new(case.choices.clone());
@@ -504,6 +504,61 @@ impl Check for Enforcement {
         );
         let key = hash64(&description);
         let expect_ok = kind == "none" || (kind == "non-tight" && case.bypass);
+        // one case in 150 also goes through the command line, with and without --save-problems: a task is
+        // refused (non-zero exit, a message, nothing written) exactly when the library refuses it - also when
+        // no problem file is asked for
+        if key % 150 == 0 {
+            if let Some(bin) = cli::anthem_bin() {
+                let dir = cli::scratch_dir("c11e");
+                let mut files: Vec<String> = vec![];
+                let mut put = |name: &str, text: String| {
+                    std::fs::write(dir.join(name), text).unwrap();
+                    files.push(dir.join(name).to_string_lossy().to_string());
+                };
+                match (&task.left_program, &task.left_spec) {
+                    (Some(p), _) => put("a.lp", safe_print::asp_program(p, &Style::plain())),
+                    (_, Some(sp)) => put("s.spec", safe_print::specification(sp, &Style::plain())),
+                    _ => {}
+                }
+                put("b.lp", safe_print::asp_program(&task.right, &Style::plain()));
+                put("u.ug", safe_print::user_guide(&task.user_guide, &Style::plain()));
+                let out = dir.join("out");
+                let mut verdict = None;
+                for save in [true, false] {
+                    let mut args: Vec<String> = vec!["verify".into(), "--equivalence".into(), "external".into(), "--no-proof-search".into()];
+                    if save {
+                        std::fs::create_dir_all(&out).unwrap();
+                        args.push("--save-problems".into());
+                        args.push(out.to_string_lossy().to_string());
+                    }
+                    if case.bypass {
+                        args.push("--bypass-tightness".into());
+                    }
+                    args.extend(files.iter().cloned());
+                    let argv: Vec<&str> = args.iter().map(|s| s.as_str()).collect();
+                    let r = cli::run(&bin, &argv, None);
+                    let written = if save { cli::snapshot_dir(&out).len() } else { 0 };
+                    let accepted = r.code == Some(0);
+                    if accepted != result.is_ok() || (!accepted && (written > 0 || r.stderr.trim().is_empty())) {
+                        verdict = Some(Outcome::fail(
+                            format!("cli-differs-from-library:{}", if save { "save-problems" } else { "dry-run" }),
+                            format!(
+                                "C11: `anthem {}` ended with exit {:?} ({written} files written), the library {} the task\n  stderr: {}\n{description}",
+                                argv[..argv.len() - files.len()].join(" "),
+                                r.code,
+                                if result.is_ok() { "accepts" } else { "refuses" },
+                                r.stderr.chars().take(300).collect::<String>()
+                            ),
+                        ));
+                        break;
+                    }
+                }
+                let _ = std::fs::remove_dir_all(&dir);
+                if let Some(o) = verdict {
+                    return o;
+                }
+            }
+        }
         match (&result, expect_ok) {
             (Ok((problems, _)), true) => {
                 // a direction without conclusions legitimately has no problems; require some for Universal
